@@ -407,7 +407,7 @@ EXTRA_STAGES = {
     "C12": {"quick": [("reuse-nav", "MC_Nav.tla", "MC_Nav.cfg", _nav(4, 3, "ValsInt1", "NamesAB", "LookAB", "OpsReuse", "RootsOA")),
                       ("writer-reset", "MC_Writer.tla", "MC_Writer.cfg", WRITER_Q),
                       ("to_string-then-reuse", "MC_ToString.tla", "MC_ToString.cfg", _ts(2, 3, "ValsText", "NamesAB", "FALSE", "TRUE", "RootsOA", "Pres012"))],
-            "thorough": [("reuse-nav", "MC_Nav.tla", "MC_Nav.cfg", _nav(5, 3, "ValsMix", "NamesAB", "LookAB", "OpsReuse", "RootsOA")),
+            "thorough": [("reuse-nav", "MC_Nav.tla", "MC_Nav.cfg", _nav(4, 3, "ValsMix", "NamesAB", "LookAB", "OpsReuse", "RootsOA")),
                          ("writer-reset", "MC_Writer.tla", "MC_Writer.cfg", WRITER_T),
                          ("to_string-then-reuse", "MC_ToString.tla", "MC_ToString.cfg", _ts(3, 3, "ValsText", "NamesAB", "FALSE", "TRUE", "RootsOA", "Pres012"))]},
     "C09": {"quick": [("writer-latch", "MC_Writer.tla", "MC_Writer.cfg", WRITER_Q),
